@@ -19,7 +19,7 @@ EmitPath ==
 EmitDeny ==
     (sub = "deny" /\ dn.phase = "done") =>
           PrintT(<<"CASE", ToJson([t |-> "deny", factory |-> dn.c.factory, comp |-> dn.c.comp,
-                                   saveas |-> dn.c.saveas, wr |-> dn.wr,
+                                   saveas |-> dn.c.saveas, wr |-> dn.wr, entry |-> dn.c.entry,
                                    files |-> dn.c.files, commands |-> dn.c.commands, comps |-> dn.c.comps,
                                    items |-> CaseItems(dn.c), acc |-> dn.acc])>>)
 
